@@ -15,7 +15,7 @@ every theorem holds for EVERY such table, so nothing here depends on how much of
 For non-ASCII text the code uses the Unicode tables: `é`, `ß`, `中` are alphanumeric; lower-casing is per character and may
 lengthen a token (`İ` becomes `i` + U+0307); folding runs after lower-casing and maps `ß` to `ss`.
 
-Row keys stand for row ids; a table history is a list of `Op` (append of fragments, delete, index (re)build, optimize).
+Row keys stand for row ids; a table history is a list of `Op` (append of fragments, delete, index (re)build, optimize,\ncompaction with index remap); `split` = the merger keeps the partitions apart (LANCE_FTS_TARGET_SIZE = 0).
 -/
 namespace LanceModel.C23
 
@@ -86,6 +86,16 @@ theorem merge_faithful (a b : List IDoc) (t : Token) (d pos : Nat) :
       ∃ doc, (a ++ b)[d]? = some doc ∧ (pos, t) ∈ doc.toks :=
   (repr_mergeInto _ _ a b (repr_build a) (repr_build b)).occ t (d, pos)
 
+/-- … and the remap of a compaction (`InnerBuilder::remap`: documents of removed rows dropped, doc ids shifted, every surviving
+    document keeps its own positions, emptied tokens removed) gives the index of the surviving documents -/
+theorem remap_faithful (docs : List IDoc) (keep : Nat → Bool) (t : Token) (d pos : Nat) :
+    OccIn ((buildPart docs).remap keep).postings t (d, pos) ↔
+      ∃ doc, (docs.filter (fun x => keep x.rowId))[d]? = some doc ∧ (pos, t) ∈ doc.toks :=
+  (repr_remap _ docs keep (repr_build docs)).occ t (d, pos)
+
+example : partSearch ((buildPart [⟨7, [(0, ['a']), (1, ['b'])]⟩, ⟨8, [(0, ['c'])]⟩, ⟨9, [(0, ['b']), (1, ['a'])]⟩]).remap (· != 7))
+    .phrase [['b'], ['a']] = [1] := by decide
+
 /-- searching one partition: for EVERY corpus and EVERY query the returned doc ids are exactly the documents that contain
     any token (OR) / every token (AND) / the tokens at consecutive positions (phrase) -/
 theorem partition_match_set (docs : List IDoc) (mode : Mode) (q : List Token) (d : Nat) :
@@ -112,28 +122,33 @@ example : indexSearch [buildPart [⟨7, [(0, ['a'])]⟩], buildPart [⟨9, [(0, 
 /-! ## 3. Match queries: all / any terms, minus deleted, plus unindexed rows — for every history -/
 
 /-- the configuration queries run under: the index's configuration `cfg` once an index exists -/
-theorem effCfg_run (ops : CharOps) (cfg : Cfg) (history : List Op) :
-    (Ds.run ops cfg history).effCfg = if (Ds.run ops cfg history).idx.isSome then cfg else rawCfg := by
+theorem effCfg_run (ops : CharOps) (cfg : Cfg) (history : List Op) (split : Bool) :
+    (Ds.run ops cfg history split).effCfg = if (Ds.run ops cfg history split).idx.isSome then cfg else rawCfg := by
   unfold Ds.effCfg
-  cases (Ds.run ops cfg history).idx with
+  cases (Ds.run ops cfg history split).idx with
   | none => rfl
   | some ix => simp [cfg_run]
 
 /-- `match_set`: after ANY history of appends, deletes, index builds and optimisations, a match query returns exactly the
     live rows (indexed or not) whose text contains any (OR) / all (AND) of the query's tokens, under the index's tokenizer
     configuration (`effCfg`: `cfg` once an index exists; before that lance splits with the bare simple tokenizer) -/
-theorem match_set (ops : CharOps) (cfg : Cfg) (history : List Op) (and : Bool) (text : List Char) (x : Nat) :
-    x ∈ matchSearch ops (Ds.run ops cfg history) and text ↔
-      ∃ r ∈ (Ds.run ops cfg history).rows, r.id = x ∧ r.deleted = false ∧ ∃ t, r.text = some t ∧
-        DocMatch (if and then .and else .or) (tokenTexts ops (Ds.run ops cfg history).effCfg text)
-          (tokenize ops (Ds.run ops cfg history).effCfg t) :=
-  matchSearch_iff (consistent_run ops cfg history) and text x
+theorem match_set (ops : CharOps) (cfg : Cfg) (history : List Op) (split : Bool) (and : Bool) (text : List Char) (x : Nat) :
+    x ∈ matchSearch ops (Ds.run ops cfg history split) and text ↔
+      ∃ r ∈ (Ds.run ops cfg history split).rows, r.id = x ∧ r.deleted = false ∧ ∃ t, r.text = some t ∧
+        DocMatch (if and then .and else .or) (tokenTexts ops (Ds.run ops cfg history split).effCfg text)
+          (tokenize ops (Ds.run ops cfg history split).effCfg t) :=
+  matchSearch_iff (consistent_run ops cfg history split) and text x
 
 /-- `DocMatch` in plain words -/
 theorem match_meaning (q : List Token) (toks : List (Nat × Token)) :
     (DocMatch .or q toks ↔ ∃ t ∈ q, t ∈ toks.map (·.2)) ∧
     (DocMatch .and q toks ↔ q ≠ [] ∧ ∀ t ∈ q, t ∈ toks.map (·.2)) := by
   exact ⟨by simp only [DocMatch, hasWord_iff], by simp only [DocMatch, hasWord_iff]⟩
+
+/-- a history with a compaction: the deleted row is dropped from the index, the phrase still finds the surviving row -/
+example : evalQ asciiOps (Ds.run asciiOps ⟨true, true, none, true⟩
+    [.append [[some "x a b".toList, some "a b c".toList, some "b a".toList]], .index, .delete [0], .compact]) (.phrase "a b".toList) = [1] := by
+  decide
 
 def hist1 : List Op :=
   [.append [[some "a b".toList, none, some [], some "a a c".toList]], .index, .append [[some "B a".toList]], .delete [0]]
@@ -143,13 +158,13 @@ example : matchSearch asciiOps (Ds.run asciiOps ⟨true, true, none, true⟩ his
 
 /-- `phrase_set`: a phrase query returns exactly the live rows OF THE FRAGMENTS THE INDEX COVERS that contain the query's
     tokens at consecutive positions (query tokens numbered 0, 1, 2, …) -/
-theorem phrase_set (ops : CharOps) (cfg : Cfg) (history : List Op) (ix : Idx)
-    (hix : (Ds.run ops cfg history).idx = some ix) (text : List Char) (x : Nat) :
-    x ∈ phraseSearch ops (Ds.run ops cfg history) text ↔
-      ∃ r ∈ (Ds.run ops cfg history).rows, r.id = x ∧ r.deleted = false ∧ ix.frags.contains r.frag = true ∧
+theorem phrase_set (ops : CharOps) (cfg : Cfg) (history : List Op) (split : Bool) (ix : Idx)
+    (hix : (Ds.run ops cfg history split).idx = some ix) (text : List Char) (x : Nat) :
+    x ∈ phraseSearch ops (Ds.run ops cfg history split) text ↔
+      ∃ r ∈ (Ds.run ops cfg history split).rows, r.id = x ∧ r.deleted = false ∧ ix.frags.contains r.frag = true ∧
         ∃ t, r.text = some t ∧ DocMatch .phrase (tokenTexts ops cfg text) (tokenize ops cfg t) := by
-  have := phraseSearch_iff (consistent_run ops cfg history) hix text x
-  rw [cfg_run] at this
+  have := phraseSearch_iff (consistent_run ops cfg history split) hix text x
+  rw [cfg_run ops cfg history split] at this
   exact this
 
 /-! ## 4. Boolean queries -/
@@ -195,10 +210,10 @@ example : evalQ asciiOps (Ds.run asciiOps ⟨true, true, none, true⟩ hist1)
     satisfies the query's specification (`QSpec`: any / all tokens, the phrase at the tokenizer's relative positions,
     must ∩ / should ∪ / must_not \) -/
 def C23_full (ops : CharOps) : Prop :=
-  ∀ (cfg : Cfg) (history : List Op) (q : Query) (x : Nat),
-    queryRefused (Ds.run ops cfg history) q = false →
-    (x ∈ evalQ ops (Ds.run ops cfg history) q ↔
-      LiveMatch ops (Ds.run ops cfg history) x (QSpec ops (Ds.run ops cfg history).effCfg q))
+  ∀ (cfg : Cfg) (history : List Op) (split : Bool) (q : Query) (x : Nat),
+    queryRefused (Ds.run ops cfg history split) q = false →
+    (x ∈ evalQ ops (Ds.run ops cfg history split) q ↔
+      LiveMatch ops (Ds.run ops cfg history split) x (QSpec ops (Ds.run ops cfg history split).effCfg q))
 
 /-- every live row lies in a fragment the index covers (nothing was appended since the last build / optimize) -/
 def Ds.covered (ds : Ds) : Bool :=
@@ -209,29 +224,29 @@ def Ds.covered (ds : Ds) : Bool :=
 /-- `C23_partial`: the full conclusion holds for every query without a phrase, and for queries with phrases when the
     index covers every live row and no phrase text lost a token to the length filter.  The two excluded regions are the
     recorded findings `phrase_unindexed` and `phrase_position_gap`. -/
-theorem C23_partial (ops : CharOps) (cfg : Cfg) (history : List Op) (q : Query) (x : Nat)
-    (hyp : q.hasPhrase = false ∨ ((Ds.run ops cfg history).covered = true ∧ q.dense ops cfg = true)) :
-    x ∈ evalQ ops (Ds.run ops cfg history) q ↔
-      LiveMatch ops (Ds.run ops cfg history) x (QSpec ops (Ds.run ops cfg history).effCfg q) := by
-  have hc := consistent_run ops cfg history
-  have hcfg := cfg_run ops cfg history
-  have hcov_idx : (Ds.run ops cfg history).covered = true → (Ds.run ops cfg history).effCfg = cfg := by
+theorem C23_partial (ops : CharOps) (cfg : Cfg) (history : List Op) (split : Bool) (q : Query) (x : Nat)
+    (hyp : q.hasPhrase = false ∨ ((Ds.run ops cfg history split).covered = true ∧ q.dense ops cfg = true)) :
+    x ∈ evalQ ops (Ds.run ops cfg history split) q ↔
+      LiveMatch ops (Ds.run ops cfg history split) x (QSpec ops (Ds.run ops cfg history split).effCfg q) := by
+  have hc := consistent_run ops cfg history split
+  have hcfg := cfg_run ops cfg history split
+  have hcov_idx : (Ds.run ops cfg history split).covered = true → (Ds.run ops cfg history split).effCfg = cfg := by
     intro hcov
     unfold Ds.covered at hcov
-    cases hix : (Ds.run ops cfg history).idx with
+    cases hix : (Ds.run ops cfg history split).idx with
     | none => rw [hix] at hcov; cases hcov
     | some ix => rw [effCfg_some hix, hcfg]
-  have hdense : q.dense ops (Ds.run ops cfg history).effCfg = true := by
+  have hdense : q.dense ops (Ds.run ops cfg history split).effCfg = true := by
     rcases hyp with h | h
     · exact noPhrase_dense ops _ q h
     · rw [hcov_idx h.1]; exact h.2
-  have hready : q.hasPhrase = true → PhraseReady (Ds.run ops cfg history) := by
+  have hready : q.hasPhrase = true → PhraseReady (Ds.run ops cfg history split) := by
     intro hp
     rcases hyp with h | h
     · rw [h] at hp; cases hp
     · have hcov := h.1
       unfold Ds.covered at hcov
-      cases hix : (Ds.run ops cfg history).idx with
+      cases hix : (Ds.run ops cfg history split).idx with
       | none => rw [hix] at hcov; cases hcov
       | some ix =>
         rw [hix] at hcov
@@ -248,7 +263,7 @@ def cfgGap : Cfg := ⟨true, true, some 5, true⟩
 theorem C23_counterexample_unindexed : ¬ C23_full asciiOps := by
   intro h
   have h1 := (h ⟨true, true, none, true⟩
-    [.append [[some "a b".toList]], .index, .append [[some "a b".toList]]] (.phrase "a b".toList) 1 (by decide)).2
+    [.append [[some "a b".toList]], .index, .append [[some "a b".toList]]] false (.phrase "a b".toList) 1 (by decide)).2
   have hm : 1 ∈ evalQ asciiOps (Ds.run asciiOps ⟨true, true, none, true⟩
       [.append [[some "a b".toList]], .index, .append [[some "a b".toList]]]) (.phrase "a b".toList) := by
     apply h1
@@ -267,7 +282,7 @@ theorem C23_counterexample_unindexed : ¬ C23_full asciiOps := by
     to the length filter does not match its own text.  maxLen 5, row `"a elephant b"`, phrase `"a elephant b"`: not returned. -/
 theorem C23_counterexample_gap : ¬ C23_full asciiOps := by
   intro h
-  have h1 := (h cfgGap [.append [[some "a elephant b".toList]], .index] (.phrase "a elephant b".toList) 0 (by decide)).2
+  have h1 := (h cfgGap [.append [[some "a elephant b".toList]], .index] false (.phrase "a elephant b".toList) 0 (by decide)).2
   have hm : 0 ∈ evalQ asciiOps (Ds.run asciiOps cfgGap [.append [[some "a elephant b".toList]], .index])
       (.phrase "a elephant b".toList) := by
     apply h1
